@@ -8,3 +8,4 @@ import MiniconfVerif.Props.C07
 #print axioms MiniconfVerif.C07.list_complete
 #print axioms MiniconfVerif.C07.list_any_schedule
 #print axioms MiniconfVerif.C07.foreign_topic_ignored
+#print axioms MiniconfVerif.C07.source_handler_is_model
